@@ -42,7 +42,6 @@ def _fp_text(text: str) -> str:
 FUNCTIONS = [
     ("stepup/core/startup.py", None, "resume_from_db"),
     ("stepup/core/startup.py", None, "reset_interrupted_steps"),
-    ("stepup/core/startup.py", None, "rescan_env_vars"),
     ("stepup/core/startup.py", None, "rescan_files"),
     ("stepup/core/startup.py", None, "rescan_nglobs"),
     ("stepup/core/executor.py", "Executor", "_run_hash_job"),
@@ -63,7 +62,6 @@ FINGERPRINTS = {
     "stepup/core/startup.py:resume_from_db": ("6ad066191b0d5512", "f73937e0ee9e422b",),  # first: with log-only statements dropped (astutil._DropLogging)
     "stepup/core/startup.py:reset_interrupted_steps": ("ed62a94f9b3c60bd",),
     # first shape: the value seen at startup is stored (fix cc92e6e); second: it is not (A->B->A missed)
-    "stepup/core/startup.py:rescan_env_vars": ("93d6fadf2542d1bc", "9974fa94fec49723"),
     "stepup/core/startup.py:rescan_files": ("a64cd5905d5443f5",),
     "stepup/core/startup.py:rescan_nglobs": ("447d45a8dbb23181",),
     # first shape: stale CONFIRMED results are dropped (fix a139b14); second: the shape before it
@@ -293,25 +291,85 @@ def _stale_confirmation_states(tree):
     return names
 
 
+_ENV_REPORT_OK = ("reported_names.add(name)", "old_fmt = fmt_env_value(old_value)", "new_fmt = fmt_env_value(new_value)")
+
+
+def _env_loop_effects(loop, differs):
+    """Effects of one iteration of the loop of rescan_env_vars over the env_var rows, for a row whose current value
+    differs / does not differ from the recorded one: 'rerun' (the step is collected), 'store' (the value that was
+    compared is queued for the write-back).  Reporting is noise."""
+    out = []
+
+    def reporting_only(stmts):
+        for st in stmts:
+            text = ast.unparse(st)
+            if text in _ENV_REPORT_OK or text.startswith("await reporter("):
+                continue
+            raise TranslatorError(f"rescan_env_vars: statement in the reporting part not recognised: {text[:80]}")
+
+    def run(stmts):
+        for st in stmts:
+            text = ast.unparse(st)
+            if isinstance(st, ast.Continue):
+                return True
+            if text == "new_value = os.getenv(name)":
+                continue
+            if isinstance(st, ast.If):
+                test = st.test
+                neg = isinstance(test, ast.UnaryOp) and isinstance(test.op, ast.Not)
+                core = ast.unparse(test.operand if neg else test)
+                if core in ("new_value == old_value", "old_value == new_value"):
+                    val = not differs
+                elif core in ("new_value != old_value", "old_value != new_value"):
+                    val = differs
+                elif core == "name not in reported_names" and not neg:
+                    reporting_only(st.body)
+                    reporting_only(st.orelse)
+                    continue
+                else:
+                    raise TranslatorError(f"rescan_env_vars: condition not recognised: {ast.unparse(test)}")
+                if run(st.body if val != neg else st.orelse):
+                    return True
+                continue
+            if text == "steps_to_rerun[node_i] = Step(workflow, node_i, label)":
+                out.append("rerun")
+                continue
+            if text == "changed.append((new_value, node_i, name))":
+                out.append("store")
+                continue
+            raise TranslatorError(f"rescan_env_vars: statement in the loop not recognised: {text[:80]}")
+        return False
+    run(loop.body)
+    return out
+
+
 def _env_rescan_facts(tree):
-    """rescan_env_vars: a row counts as changed iff os.getenv(name) != stored value; the steps are
-    marked pending in one transaction; does that transaction also store the value that was seen?"""
+    """rescan_env_vars, translated statement by statement: the selection (attached steps), the loop interpreted for a
+    row that differs / does not differ (which rows are collected for a rerun and for the write-back), the one
+    transaction that marks the collected steps pending and - since cc92e6e - stores the values that were seen.
+    Returns (stores, marks_when_differs, marks_when_equal)."""
     fn = find_function(tree, "rescan_env_vars")
     src = ast.unparse(fn)
     if "WHERE NOT node.detached" not in src:
         raise TranslatorError("rescan_env_vars: selection SQL not recognised")
-    if "new_value = os.getenv(name)\n        if new_value == old_value:\n            continue" not in src:
-        raise TranslatorError("rescan_env_vars: comparison not recognised")
+    loops = [n for n in fn.body if isinstance(n, ast.For)]
+    if len(loops) != 1 or ast.unparse(loops[0].target) != "(node_i, label, name, old_value)" \
+            or ast.unparse(loops[0].iter) != "env_var_uses":
+        raise TranslatorError("rescan_env_vars: loop over the env_var rows not recognised")
+    eff_d, eff_e = _env_loop_effects(loops[0], True), _env_loop_effects(loops[0], False)
     blocks = [n for n in ast.walk(fn) if isinstance(n, ast.AsyncWith)
               and "mark_step_pending" in ast.unparse(ast.Module(body=n.body, type_ignores=[]))]
     if len(blocks) != 1:
         raise TranslatorError("rescan_env_vars: expected one transaction that marks steps pending")
     body = ast.unparse(ast.Module(body=blocks[0].body, type_ignores=[]))
+    if "for step in steps_to_rerun.values():\n    workflow.mark_step_pending(step)" not in body:
+        raise TranslatorError("rescan_env_vars: the collected steps are not the ones marked pending")
     stores = "UPDATE env_var SET value = ? WHERE node = ? AND name = ?" in body
-    if stores and "changed.append((new_value, node_i, name))" not in src:
-        raise TranslatorError("rescan_env_vars: stored value is not the value that was compared")
+    if stores and ("store" in eff_d) != ("rerun" in eff_d) or ("store" in eff_e) != ("rerun" in eff_e) and stores:
+        raise TranslatorError("rescan_env_vars: the rows written back are not the rows found changed")
     if "UPDATE env_var" in src and not stores:
         raise TranslatorError("rescan_env_vars: env_var is written outside the marking transaction")
+    _env_rescan_facts.marks = ("rerun" in eff_d, "rerun" in eff_e)
     return stores
 
 
@@ -715,6 +773,11 @@ def generate(check=True):
         "   deferred flag: 0 = not deferred, 1 = deferred, 2 = deferred iff Step.has_unusable_dynamic_input()",
         "   holds in the recording transaction (84081f2) *)",
         f"Definition gen_validate_flag_mode : N := {int(validate_deferred)}.",
+        "",
+        "(* startup.rescan_env_vars, the loop over the env_var rows of the attached steps interpreted for one row: is the",
+        "   step collected for a rerun when the current value DIFFERS from the recorded one / when it is EQUAL *)",
+        f"Definition gen_env_rescan_marks : bool * bool := ({'true' if _env_rescan_facts.marks[0] else 'false'}, "
+        f"{'true' if _env_rescan_facts.marks[1] else 'false'}).",
         "",
         "(* Executor.try_skip_job, the transaction that records the outcome, when an input record was replaced while",
         "   the step was being checked (_inputs_overtaken): 0 = no such test (before 3ce20a7), 1 = back to PENDING",
